@@ -29,6 +29,17 @@ META = {
     "axis of a >2-D array is outside the statement (the accessor raises TypeError there) and not generated.  "
     "Model follows the code as repaired on branch fix-C09 (4 fix commits).",
     "technique": "Lean 4 proof over hand model + differential correspondence with real code and real xarray",
+    "inventory": "Modelled (Model/C09.lean): spatial_dims, _mk_crs_coord/_extract_crs/_extract_geo_transform/_extract_gcps (as the parsed "
+    "CrsCoord record), _coord_to_xr/_mk_pixel_coord/xr_coords (linear + GCP), wrap_xr (crs_coord_name given or None), assign_crs, "
+    "_locate_crs_coords, data_resolution_and_offset, affine_from_axis, resolution_from_affine (ST branch), is_affine_st / "
+    "_confirm_axis_aligned, _extract_transform, _locate_geo_info, GCPGeoBox.gcps, GeoBox.coordinates, _extract_output_geobox_params, "
+    "_xr_reproject_da assembly, _xr_reproject_ds/_maybe_reproject, xarray isel/arith/astype/pickle/copy as ops.  NOT modelled: "
+    "_get_crs_from_attrs beyond the coordinate attrs (data-variable / Dataset 'crs' strings, several candidates), the attrs fallback of "
+    "grid_mapping as a separate path, resolution_from_affine's rotated branch (decompose_rws, needs sqrt; proved unreachable from wrap), "
+    "Poly2d.fit / GCPMapping (pix2wld of GCP boxes: sampled), xr_zeros (thin wrapper, exercised as a route), mask / crop / rasterize / "
+    "colorize / to_rgba / explore / write_cog wrappers (not part of the claim), ODCExtension accessor caching (exercised through the "
+    "touched-accessor round trips), nodata value handling (maybe_int of dst_nodata), the warp itself (rio_reproject / _dask_rio_reproject), "
+    "the Dataset-level merged view is modelled (dsView) but has no theorem yet (correspondence only).",
     "design_ref": "DESIGN.md §4 C09",
 }
 
@@ -435,8 +446,9 @@ def location_oracle(R: Run, g, xx, ops, dims, sizes, case, tag, exact):
         R.oracle(False, key + "|raises", case, f".odc.geobox raised {type(e).__name__}: {e}")
         return
     if r is None:
-        # allowed only without a CRS coordinate and with a one-pixel axis of world labels
-        ok = g.crs is None and one_px != "" and cls != "rotated"
+        # allowed only without a GeoTransform to fall back on (no CRS coordinate, or one written by assign_crs) and with
+        # a one-pixel axis of world labels
+        ok = (g.crs is None or case.get("route") == "assign") and one_px != "" and cls != "rotated"
         R.oracle(ok, key + "|lost", case, "geobox is None after " + tag, trivial=ok)
         return
     ok_shape = tuple(r.shape) == (len(idx[yd]), len(idx[xd]))
@@ -516,7 +528,7 @@ def roundtrip_eq_oracle(R: Run, g, xx, case, exact):
     key = f"roundtrip-eq|{cls}{one_px}"
     r = xx.odc.geobox
     if r is None:
-        ok = g.crs is None and one_px != "" and cls != "rotated"
+        ok = (g.crs is None or case.get("route") == "assign") and one_px != "" and cls != "rotated"
         R.oracle(ok, key + "|lost", case, "geobox is None right after wrap_xr", trivial=ok)
         return
     if cls == "gcp":
@@ -598,9 +610,11 @@ def run(R: Run):
         dask = rng.random() < 0.3
         cn = rng.choice(names)
         route = "zeros" if (nb is None and rng.random() < 0.3) else "wrap"
+        if kind != "gcp" and g.crs is not None and rng.random() < 0.15:
+            route = "assign"  # wrap_xr(crs_coord_name=None) + .odc.assign_crs(crs, cn): modelled by `rta`
         dims, sizes = sizes_of(g, nt, nb)
         ops = [] if shp is not None and rng.random() < 0.5 else rnd_ops(rng, dims, sizes, nt is None and nb is None)
-        line = f"c09 rt {src_s(g)} {opt_s(nt)} {opt_s(nb)} {cn} {list_s(ops, op_s)}"
+        line = f"c09 {'rta' if route == 'assign' else 'rt'} {src_s(g)} {opt_s(nt)} {opt_s(nb)} {cn} {list_s(ops, op_s)}"
         case = {"line": line, "dask": dask, "route": route}
         box = []
 
